@@ -17,6 +17,8 @@ Directive grammar (each on its own line, leading whitespace allowed):
   //@ exit                  ... immediately before the body's closing brace (functions returning `()`)
   //@ loop-end N            ... immediately before the closing brace of the N-th loop's body
   //@ loop-after N          ... immediately after the N-th loop (a statement position)
+  //@ forward "CALL" => "EXPR" via FILE :: SELECTOR == "BODY"   rule R20: CALL is a call of the forwarding method SELECTOR whose body is
+                            (checked on every run) exactly BODY; it is replaced by EXPR
   //@ for-next N into=F next=G [iter=NAME]   rule R18: the N-th loop, a `for`, is written as `loop { match G(&mut it) {..} }`
   //@ region-loop-body "TEXT" [#k]   rule R19: like region-start, but only the BODY of the loop that starts at TEXT (one iteration);
                             a `continue` of that loop becomes `return <epilogue>`
@@ -863,6 +865,20 @@ def extract_item(path, selector, opts, directives, findings_open):
             raise ExtractError("anchor lost: subst text %r occurs %d times in %s %s" % (a, n, path, selector))
         text = text.replace(a, b)
         pc.substs.append({"from": a, "to": b, "count": n}); rules.append("R11")
+    # R20: a call of a pure forwarding method is replaced by the expression it forwards to, after checking - on every run - that the
+    # body of that method still is exactly the expected single expression
+    for (a, b, fpath, fsel, fbody) in directives.get("forward", []):
+        fsf, fit = locate(fpath, fsel)
+        ftext = fsf.src[fit.start:fit.end]
+        fst = sig(lex(ftext))
+        fbo = next(j for j, x in enumerate(fst) if x.kind == "punct" and x.text == "{")
+        got = norm(ftext[fst[fbo].end:fst[match_close(fst, fbo)].start])
+        if got != norm(fbody):
+            raise ExtractError("anchor lost: forwarder %s :: %s no longer has the body %r" % (fpath, fsel, fbody))
+        n = text.count(a)
+        if n != 1: raise ExtractError("anchor lost: forward text %r occurs %d times in %s %s" % (a, n, path, selector))
+        text = text.replace(a, b)
+        pc.substs.append({"from": a, "to": b, "count": 1, "forwarder": "%s :: %s" % (fpath, fsel), "forwarder_body": fbody}); rules.append("R20")
     if it.kind == "fn" or it.kind == "impl" or it.kind == "trait":
         if it.kind == "fn":
             text = rule_r13(text, rules)
@@ -1184,6 +1200,14 @@ def generate(spec_path, open_findings=(), auto_helpers=()):
                             q, rest = _parse_quoted(d2[len(kind):])
                             k = int(rest.strip()[1:]) if rest.strip().startswith("#") else None
                             cur = (kind, q, k)
+                        elif d2.startswith("forward "):
+                            a_, rest_ = _parse_quoted(d2[len("forward "):])
+                            if not rest_.startswith("=>"): raise ExtractError("bad forward: %s" % d2)
+                            b_, rest2_ = _parse_quoted(rest_[2:])
+                            m_ = re.match(r"^\s*via\s+(\S+)\s+::\s+(.+?)\s+==\s+(.*)$", rest2_)
+                            if not m_: raise ExtractError("bad forward (need `via FILE :: SELECTOR == \"BODY\"`): %s" % d2)
+                            body_, _r = _parse_quoted(m_.group(3))
+                            directives.setdefault("forward", []).append((a_, b_, m_.group(1), m_.group(2), body_))
                         elif d2.startswith("subst ") or d2.startswith("subst? "):
                             optional = d2.startswith("subst? ")
                             a, rest = _parse_quoted(d2[7 if optional else 6:])
